@@ -429,6 +429,22 @@ static std::string stepOld(const Toks& t)
 		return b01(op == "copyd" ? File(P(p)).copy(dir) : File(P(p)).move(dir));
 	}
 	// ---- self-contained operations (scratch files 1a, 1b, 2a)
+	if (op == "xrlw" && t.size() == 2) {
+		// the loop driven by the bool result of readLine(String&): delivered strings, the string left by the final
+		// `false` call, end()
+		if (!parseBytes(t[1], bs)) return "bad-op";
+		if (!rawWrite(pathOf(0), bs)) return "err rawput";
+		TextFile tf(P(0), File::READ);
+		if (!tf) return "err open";
+		Array<String> ls;
+		String s;
+		while (tf.readLine(s)) {
+			if ((int)strlen(*s) != s.length()) return "err strlen-mismatch";
+			ls << s;
+		}
+		if ((int)strlen(*s) != s.length()) return "err strlen-mismatch";
+		return showLines(ls) + " last=" + showBytes(s) + " end=" + b01(tf.end());
+	}
 	if ((op == "xlines" || op == "xrl" || op == "xtext" || op == "xcopy") && t.size() == 2) {
 		if (!parseBytes(t[1], bs)) return "bad-op";
 		if (!rawWrite(pathOf(0), bs)) return "err rawput";
@@ -660,6 +676,44 @@ static std::string stepOld(const Toks& t)
 		delete f;
 		delete tf;
 		return r;
+	}
+	if (op == "xfo" && t.size() == 5) {
+		// operations through an object after a FAILED open: File/TextFile(1a, READ) on a missing path (c), or an object of
+		// 1b on which open(1a, READ) fails (o); then one lazily opening writer, size(), content()/text(), path()
+		bool isT = t[1] == "t";
+		if (!isT && t[1] != "f") return "bad-op";
+		if (t[2] != "c" && t[2] != "o") return "bad-op";
+		const std::string& api = t[3];
+		if (isT ? !(api == "w" || api == "a" || api == "p" || api == "s") : api != "p") return "bad-op";
+		if (!parseBytes(t[4], bs)) return "bad-op";
+		unlink(pathOf(0).c_str());
+		if (t[2] == "o" && !rawWrite(pathOf(1), std::string("precious"))) return "err rawput";
+		File* f = 0;
+		TextFile* tf = 0;
+		bool ok;
+		if (t[2] == "c") {
+			if (isT) tf = new TextFile(P(0), File::READ); else f = new File(P(0), File::READ);
+			ok = isT ? !!(*tf) : !!(*f);
+		}
+		else {
+			if (isT) tf = new TextFile(P(1)); else f = new File(P(1));
+			ok = isT ? tf->open(P(0), File::READ) : f->open(P(0), File::READ);
+		}
+		File* o = isT ? (File*)tf : f;
+		Exact e(bs);
+		bool w;
+		if (!isT) w = f->put(ByteArray((const byte*)e.p, (int)e.n));
+		else if (api == "w") w = tf->write(S(e));
+		else if (api == "a") w = tf->append(S(e));
+		else if (api == "p") w = tf->put(S(e));
+		else { *tf << S(e); w = !!(*tf); }
+		std::string r = "open=" + b01(ok) + " w=" + b01(w) + " size=" + str(o->size());
+		r += " data=" + (isT ? showBytes(tf->text()) : showBytes(o->content()));
+		std::string pth = *o->path();
+		r += " path=" + std::string(pth == pathOf(0) ? "0" : pth == pathOf(1) ? "1" : "?");
+		delete f;
+		delete tf;
+		return r + " raw0=" + rawStr(0) + " raw1=" + rawStr(1);
 	}
 	if ((op == "xput" && t.size() == 3) || (op == "xseq" && t.size() == 5)) {
 		// one writer (xput) or two writers in a row (xseq) on a fresh path, then the three views of the file
